@@ -43,6 +43,7 @@ var extraPrelude = `(define-fun goquo ((a Int) (b Int)) Int (ite (>= a 0) (ite (
 (declare-fun ext.fileext (Str) Str)
 (declare-fun ext.builder.add (Str Int) Str)
 (declare-fun ext.errtext (Val) Str)
+(declare-fun str.lt (Str Str) Bool)
 (declare-fun refl.box (Val) Int)
 (declare-fun refl.ptr (Int) Int)
 (assert (forall ((r Int)) (! (= (refl.ptr (refl.box (VObj r))) r) :pattern ((refl.box (VObj r))))))
@@ -277,6 +278,20 @@ func init() {
 		"(reflect.Value).Pointer": {note: "reflect.Value.Pointer of a map is its reference (identity)",
 			fn: func(fe *FuncEnc, f *Frame, a []Term, av []ssa.Value, st *State, p Term, pos token.Pos) []Term {
 				return []Term{Term{"(refl.ptr " + a[0].S + ")", SInt}}
+			}},
+		"sort.Strings": {mods: []string{"E_Str"}, note: "sort.Strings permutes the slice into ascending order (strictly ascending when the elements are distinct)",
+			fn: func(fe *FuncEnc, f *Frame, a []Term, av []ssa.Value, st *State, p Term, pos token.Pos) []Term {
+				s := a[0]
+				e := fe.comp(st, "E_Str", arrSort(SInt, arrSort(SInt, SStr)))
+				old := fe.define("unsorted", tSelect(e, slRef(s)))
+				row := fe.fresh("sorted", arrSort(SInt, SStr))
+				lo := slOff(s).S
+				hi := "(+ " + lo + " (s.len " + s.S + "))"
+				fe.assume(tBool(true), Term{fmt.Sprintf("(forall ((j Int)) (! (=> (and (<= %s j) (< j %s)) (exists ((i Int)) (and (<= %s i) (< i %s) (= (select %s j) (select %s i))))) :pattern ((select %s j))))", lo, hi, lo, hi, row.S, old.S, row.S), SBool})
+				fe.assume(tBool(true), Term{fmt.Sprintf("(forall ((j Int)) (! (=> (or (< j %s) (>= j %s)) (= (select %s j) (select %s j))) :pattern ((select %s j))))", lo, hi, row.S, old.S, row.S), SBool})
+				fe.assume(tBool(true), Term{fmt.Sprintf("(=> (forall ((i Int) (j Int)) (=> (and (<= %s i) (< i j) (< j %s)) (not (= (select %s i) (select %s j))))) (forall ((j Int)) (! (=> (and (<= %s j) (< (+ j 1) %s)) (str.lt (select %s j) (select %s (+ j 1)))) :pattern ((select %s j)))))", lo, hi, old.S, old.S, lo, hi, row.S, row.S, row.S), SBool})
+				fe.setComp(st, "E_Str", tStore(e, slRef(s), row))
+				return nil
 			}},
 		"bufio.NewScanner": {note: "bufio.Scanner over stdin: each Scan consumes one line of the ghost input",
 			fn: func(fe *FuncEnc, f *Frame, a []Term, av []ssa.Value, st *State, p Term, pos token.Pos) []Term {
